@@ -111,9 +111,8 @@ def scaler_alphabet(tier, seed):
     # constant batches of values that are not binary fractions (round-off in the running mean)
     a += [Batch([0.1] * 3), Batch([0.7] * 5)]
     if tier == "thorough":
-        a += [Batch([1.0 / 3] * 2), Batch([0.1] * 5)]
-        a += [Batch([-2, 0, 1e3], shape=[1, 3]), Batch([1, 1e3], shape=[2, 1]), Batch([1, 1, 1, 1, 1], shape=[5, 1])]
-    a += _random_batches(seed, 1 if tier == "quick" else 2)
+        a += [Batch([1.0 / 3] * 2), Batch([-2, 0, 1e3], shape=[1, 3]), Batch([1, 1, 1, 1, 1], shape=[5, 1])]
+    a += _random_batches(seed, 1)
     return a
 
 
@@ -126,8 +125,8 @@ def reward_alphabet(tier, seed, small=False):
         return a
     a += [Batch([0.0, 0.0]), Batch([1e3]), Batch([-2, 0, 1])]
     if tier == "thorough":
-        a += [Batch([-2.0] * 5), Batch([1, 1e3, 1, 1e3], shape=[2, 2]), Batch([1.0 / 3] * 3)]
-    a += _random_batches(seed + 7, 1 if tier == "quick" else 2)
+        a += [Batch([1, 1e3, 1, 1e3], shape=[2, 2]), Batch([1.0 / 3] * 3)]
+    a += _random_batches(seed + 7, 1)
     return a
 
 
